@@ -102,7 +102,21 @@ def collect(tree):
     '<module>' holds the names assigned at module level."""
     out = {q: sorted(local_names(fn)) for q, fn, _ in qualnames(tree)}
     out['<module>'] = sorted(module_names(tree))
+    out['<defs>'] = {q: def_skeletons(fn) for q, fn, _ in qualnames(tree)}
     return out
+
+
+def def_skeletons(fn):
+    """{local name: sorted skeletons of the plain assignments binding it}
+    (skeleton = statement with every local blanked): lets a RENAMED local be
+    told from a new temporary."""
+    from .control import skeleton
+    out = {}
+    for n in ast.walk(fn):
+        if isinstance(n, ast.Assign) and len(n.targets) == 1 and isinstance(
+                n.targets[0], ast.Name):
+            out.setdefault(n.targets[0].id, []).append(skeleton(n, fn))
+    return {k: sorted(v) for k, v in out.items()}
 
 
 # --------------------------------------------------------------------------
@@ -316,6 +330,8 @@ def inline_new_helpers(tree, ref):
         return tree
     new = {}
     for q, fn, cls in qualnames(tree):
+        if q.startswith('<'):
+            continue
         if q.split('#')[0] not in ref and q not in ref and _inlinable(
                 fn, cls is not None):
             new[(cls.name if cls else None, fn.name)] = fn
@@ -426,6 +442,13 @@ PURE_CALLS = {'len', 'abs', 'min', 'max', 'int', 'float', 'bool', 'str',
               'range', 'zip', 'enumerate', 'round', 'sum', 'complex'}
 
 
+# calls that return a VALUE (evaluating them twice gives equal results and
+# nothing depends on the identity of what they return)
+VALUE_CALLS = {'np.asarray', 'len', 'abs', 'float', 'int', 'bool', 'str',
+               'getattr', 'np.real', 'np.imag', 'np.abs', 'np.sqrt',
+               'isinstance', 'min', 'max', 'np.shape', 'np.ndim', 'np.size'}
+
+
 def _pure(e):
     for n in ast.walk(e):
         if isinstance(n, ast.Call):
@@ -492,6 +515,17 @@ def propagate_new_temps(tree, ref):
         cand = local_names(fn) - set(base)
         if not cand:
             continue
+        # a new name whose bindings look exactly like those of a name that
+        # vanished is that local under another name, not a new temporary
+        gone = set(base) - local_names(fn)
+        if gone:
+            refd = (ref.get('<defs>', {}).get(q) or
+                    ref.get('<defs>', {}).get(q.split('#')[0]) or {})
+            nowd = def_skeletons(fn)
+            old = [refd.get(g) for g in gone if refd.get(g)]
+            cand = {c for c in cand if nowd.get(c) not in old}
+            if not cand:
+                continue
         try:
             cfg = CFG(fn)
         except AnalysisError:
@@ -569,8 +603,18 @@ def _propagate(fn, cfg, t):
     for ld, d in plan:
         uses[d] = uses.get(d, 0) + 1
     for d, k in uses.items():
-        if k > 1 and any(isinstance(x, ast.Call) for x in ast.walk(
-                d.ast.value)):
+        if k > 1 and any(isinstance(x, ast.Call) and ast.unparse(x.func)
+                         not in VALUE_CALLS for x in ast.walk(d.ast.value)):
+            return
+    # (a value that is changed in place afterwards is an object, not a value)
+    for n in ast.walk(fn):
+        if isinstance(n, (ast.Subscript, ast.Attribute)) and isinstance(
+                n.ctx, (ast.Store, ast.Del)) and isinstance(
+                    n.value, ast.Name) and n.value.id == t:
+            return
+        if isinstance(n, ast.Call) and isinstance(n.func, ast.Attribute) \
+                and n.func.attr in MUTATORS and isinstance(
+                    n.func.value, ast.Name) and n.func.value.id == t:
             return
     repl = {id(ld): d.ast.value for ld, d in plan}
 
@@ -686,10 +730,31 @@ def specialise_new_params(tree, ref):
     the parameter or any call in the module passes it."""
     if ref is None:
         return tree
-    passed = set()
-    for n in ast.walk(tree):
-        if isinstance(n, ast.Call):
-            passed |= {k.arg for k in n.keywords if k.arg}
+    def calls_passing(fn, pname, index):
+        """Does a call of `fn` somewhere in the module hand over a value for
+        the parameter (other than the function handing its own parameter on
+        to itself in a recursion)?"""
+        inside = {id(x) for x in ast.walk(fn)}
+        for n in ast.walk(tree):
+            if not isinstance(n, ast.Call):
+                continue
+            f = n.func
+            nm = f.id if isinstance(f, ast.Name) else (
+                f.attr if isinstance(f, ast.Attribute) else None)
+            if nm != fn.name:
+                continue
+            vals = [k.value for k in n.keywords if k.arg == pname]
+            if index is not None and len(n.args) > index:
+                vals.append(n.args[index])
+            if any(isinstance(a, ast.Starred) for a in n.args) or any(
+                    k.arg is None for k in n.keywords):
+                return True
+            for v in vals:
+                if id(n) in inside and isinstance(v, ast.Name) and \
+                        v.id == pname:
+                    continue
+                return True
+        return False
     for q, fn, cls in qualnames(tree):
         base = ref.get(q) or ref.get(q.split('#')[0])
         if base is None:
@@ -703,8 +768,14 @@ def specialise_new_params(tree, ref):
         # reference signature can reach them)
         npos = len(a.args)
         for p, d in cands:
-            if p.arg in base or p.arg in passed or not isinstance(
-                    d, ast.Constant):
+            if p.arg in base or not isinstance(d, ast.Constant):
+                continue
+            idx = None
+            if p in a.args:
+                idx = a.args.index(p) - (1 if cls is not None and a.args and
+                                         a.args[0].arg in ('self', 'cls')
+                                         else 0)
+            if calls_passing(fn, p.arg, idx):
                 continue
             if p in a.args and any(x.arg in base for x in
                                    a.args[a.args.index(p):]):
@@ -713,6 +784,17 @@ def specialise_new_params(tree, ref):
                     x.ctx, (ast.Store, ast.Del)) for x in ast.walk(fn)):
                 continue
             fn.body = [_Subst({p.arg: d}).visit(st) for st in fn.body]
+            # the recursion no longer hands the option on
+            for n in ast.walk(fn):
+                if isinstance(n, ast.Call):
+                    f = n.func
+                    nm = f.id if isinstance(f, ast.Name) else (
+                        f.attr if isinstance(f, ast.Attribute) else None)
+                    if nm == fn.name:
+                        n.keywords = [k for k in n.keywords
+                                      if k.arg != p.arg]
+                        if idx is not None and len(n.args) == idx + 1:
+                            n.args = n.args[:idx]
             new = []
             for st in fn.body:
                 r = _Fold().visit(st)
